@@ -16,7 +16,7 @@ pub enum Focus {
 }
 
 pub fn run_program(p: &Program, focus: Focus, st: &mut Stats) -> CheckResult {
-    let mut sh = Shadow::new(p.k as usize);
+    let mut sh = Shadow::new(p.k as usize).with_spread(p.spread);
     let mut hits = 0usize;
     let mut created = 0usize;
     let mut overlapping = 0usize;
